@@ -71,6 +71,8 @@ var families = map[string]genCfg{
 		Reloop: true, Storer: "recording"},
 	"dispatch": {Family: "dispatch", MaxNodes: 2, MaxDepth: 2, MaxStmts: 3, Opts: 2.5, Ifs: 0.5, Sets: 0.5, Jumps: 1, Stops: 0.2, Lines: 1.5,
 		Cmds: 5, PendCmds: true, FailCmds: true, Reloop: true, Dispatch: true, Storer: "recording"},
+	// variables shown in lines of a node that runs three times (the host may write in between)
+	"varsloop": {Family: "varsloop", MaxNodes: 1, MaxDepth: 1, MaxStmts: 5, Sets: 2, Lines: 5, Ifs: 0.5, Opts: 0.5, Reloop: true, Storer: "recording"},
 	"snap": {Family: "snap", MaxNodes: 3, MaxDepth: 2, MaxStmts: 4, Opts: 2, Ifs: 1, Sets: 3, Jumps: 2.5, Stops: 0.3, Lines: 2,
 		Cmds: 1.5, PendCmds: true, VisitLine: true, IntroNode: true, Storer: "recording"},
 }
@@ -255,6 +257,50 @@ func genCase(rnd *rand.Rand, cfg genCfg, id int) *Case {
 		c.Nodes = append([]Node{{Title: "Intro", Tracking: []string{"", "never"}[rnd.Intn(2)], Body: c.addBody(intro)}}, c.Nodes...)
 		nn++
 	}
+	if cfg.Dispatch {
+		// at most two registrations per program, of names its script uses
+		used := map[string]bool{}
+		for _, b := range c.Bodies {
+			for _, st := range b {
+				var visit func(e *Expr)
+				visit = func(e *Expr) {
+					if e == nil {
+						return
+					}
+					if e.K == "call" {
+						used["f:"+e.S] = true
+					}
+					visit(e.A)
+					visit(e.L)
+					visit(e.R)
+					for _, a := range e.Args {
+						visit(a)
+					}
+				}
+				visit(st.E)
+				for _, pt := range st.Text {
+					visit(pt.E)
+				}
+				for i, e := range st.Elems {
+					if i == 0 && e.K == "str" {
+						used["c:"+e.S] = true
+					}
+					visit(e)
+				}
+			}
+		}
+		var cands []Rebind
+		for _, b := range [][3]string{{"f", "late", "id"}, {"f", "p1", "boom"}, {"c", "clate", "done"}, {"c", "cother", "fail"}, {"c", "cdone", "pend"}} {
+			if used[b[0]+":"+b[1]] {
+				cands = append(cands, Rebind{b[0], b[1], b[2]})
+			}
+		}
+		rnd.Shuffle(len(cands), func(i, j int) { cands[i], cands[j] = cands[j], cands[i] })
+		if len(cands) > 2 {
+			cands = cands[:2]
+		}
+		c.Rebinds = cands
+	}
 	// reader split
 	if nn > 1 && rnd.Intn(2) == 0 {
 		k := 1 + rnd.Intn(nn-1)
@@ -277,6 +323,11 @@ func (g *gen) headLine(node int) Stmt {
 		}
 		parts = append(parts, Part{Lit: " none="}, Part{E: eCall("visited_count", eStr("Nowhere"))},
 			Part{Lit: "/"}, Part{E: eCall("visited", eStr("Nowhere"))})
+	}
+	if g.cfg.Markup >= 0.5 {
+		// the very first line a runner shows already needs the markers whose contents are read as raw
+		// text (whatever the parser sets up for them on first use is set up by all runners at once)
+		parts = append(parts, Part{Lit: " "}, Part{Lit: "hm", Wrap: []string{"nomarkup", "selopen", "pluopen", "ordopen"}[g.rnd.Intn(4)]})
 	}
 	return Stmt{K: "line", Text: parts}
 }
@@ -378,6 +429,11 @@ func (g *gen) expr(t string, depth int) *Expr {
 				return eBin("add", conv(), conv())
 			}
 			fn := []string{"floor", "ceil", "round", "inc", "dec", "integer", "decimal"}[r.Intn(7)]
+			if r.Intn(4) == 0 {
+				// a negated literal as the argument (the literal is part of the program: it is the same
+				// number every time the statement runs)
+				return eCall(fn, eNeg([]*Expr{eNum(5, 2), eNum(2, 1), eNum(7, 4), eNum(1, 2), eNum(3, 1)}[r.Intn(5)]))
+			}
 			return eCall(fn, g.expr("n", depth-1))
 		}
 		if leaf {
@@ -550,8 +606,12 @@ func (g *gen) lineStmt() Stmt {
 	if r.Intn(4) == 0 {
 		parts = append(parts, Part{Lit: " end."})
 	}
+	if g.cfg.Dispatch && r.Intn(3) == 0 {
+		// a host function that may be registered late, or replaced, between two calls
+		parts = append(parts, Part{Lit: " late="}, Part{E: eCall([]string{"late", "p1"}[r.Intn(2)], g.expr("n", 0))})
+	}
 	if g.cfg.Markup > 0 && r.Float64() < g.cfg.Markup {
-		wrap := []string{"b", "bp", "nomarkup", "nomarkupall", "sc", "nomarkup"}[r.Intn(6)]
+		wrap := []string{"b", "bp", "nomarkup", "nomarkupall", "sc", "nomarkup", "selopen", "pluopen", "ordopen"}[r.Intn(9)]
 		lit := []string{"word", "two words", "x"}[r.Intn(3)]
 		if wrap == "nomarkup" || wrap == "nomarkupall" {
 			lit = []string{"raw [b] text", "[not a marker]", "plain"}[r.Intn(3)] // kept verbatim, brackets included
@@ -654,13 +714,17 @@ func (g *gen) cmdStmt() Stmt {
 	if g.hostWait {
 		names = append(names, "wait", "wait")
 	}
+	if g.cfg.Dispatch {
+		names = append(names, "clate") // registered by the host later, if at all
+	}
 	elems := []*Expr{eStr(names[r.Intn(len(names))])}
 	for i := r.Intn(3); i > 0; i-- {
 		if g.cfg.Dispatch && r.Intn(2) == 0 {
 			// no variable is read: the value still changes from one dispatch to the next
 			t := g.titles[r.Intn(len(g.titles))]
 			elems = append(elems, []*Expr{eCall("visited_count", eStr(t)), eCall("visited", eStr(t)), eCall("bump"),
-				eBin("add", eCall("visited_count", eStr(t)), eNum(1, 1)), eCall("p1", eCall("visited_count", eStr(g.titles[0])))}[r.Intn(5)])
+				eBin("add", eCall("visited_count", eStr(t)), eNum(1, 1)), eCall("p1", eCall("visited_count", eStr(g.titles[0]))),
+				eCall("late", eCall("visited_count", eStr(t)))}[r.Intn(6)])
 			continue
 		}
 		switch r.Intn(5) {
